@@ -23,7 +23,7 @@ def run(run):
         if prev is not None:
             ptab, ppc, pdd = prev
             turn += 1
-            check_one(run, d, ptab, ppc, pdd, 1 + turn % 2, concepts)
+            check_one(run, d, ptab, ppc, pdd, 1 + turn % 4, concepts)
         prev = (tab, pc0, dd0)
 
 
@@ -35,14 +35,31 @@ def check_one(run, d, tab, pc, dd, variant, concepts):
             if variant == 0:
                 L = pc.ctx.lattice
             else:
+                def shuf(t):
+                    t = list(t)
+                    run.rng.shuffle(t)
+                    return tuple(t)
                 if variant == 2:
-                    def shuf(t):
-                        t = list(t)
-                        run.rng.shuffle(t)
-                        return tuple(t)
                     dd = dict(dd, lattice=[tuple(shuf(x) for x in entry) for entry in dd['lattice']])
-                L = concepts.Context.fromdict(dd, raw=(variant == 2)).lattice
-                run.count('lattice loaded from dict' + (' raw with shuffled tuples' if variant == 2 else ''))
+                    L = concepts.Context.fromdict(dd, raw=True).lattice
+                    run.count('lattice loaded from dict raw with shuffled tuples')
+                elif variant == 3:
+                    import io
+                    import json
+                    jd = dict(dd, lattice=[[list(shuf(x)) for x in entry] for entry in dd['lattice']])
+                    L = concepts.Context.fromjson(io.StringIO(json.dumps(jd)), raw=True).lattice
+                    run.count('lattice loaded from json raw with shuffled tuples')
+                elif variant == 4:
+                    # the caller scrambles a dict it got from todict(); a later todict() of the same context is loaded as is
+                    scratch = pc.ctx.todict()
+                    scratch['lattice'].reverse()
+                    for k in range(len(scratch['lattice'])):
+                        scratch['lattice'][k] = tuple(shuf(x) for x in scratch['lattice'][k])
+                    L = concepts.Context.fromdict(pc.ctx.todict()).lattice
+                    run.count('lattice loaded from a later todict() after the caller scrambled an earlier one')
+                else:
+                    L = concepts.Context.fromdict(dd).lattice
+                    run.count('lattice loaded from dict')
             cs = list(L)
             E = [pc.omask(c.extent) for c in cs]
             idx = [c.index for c in cs]
